@@ -1,1 +1,161 @@
-/-! Property theorems for C14 (only property-level statements and non-vacuity examples live here). -/
+import SpoxModel.Lemmas.Func
+import SpoxModel.Lemmas.FuncSem
+/-!
+# C14 — functions mean their body, are defined once; inconsistent bodies are rejected
+
+Property theorems only. `Func.toModel` is the model of function collection
+(`compile_graph` + `Function.update_metadata` + sub-build merge) followed by `to_onnx_model`'s
+`(domain, name)` table; `Func.usedG` is the independent description "every Function node reachable from
+the program: main graph, control-flow bodies, bodies of called functions, recursively".
+-/
+namespace C14
+open Func
+
+/-- **Defined once.** If the build returns, `model.functions` has pairwise distinct keys, contains a
+    definition for exactly the keys used anywhere (main graph, control-flow bodies, other functions'
+    bodies — at any depth), and nothing else. -/
+theorem defined_once (g : FGraph) (tbl : List Inst) (h : toModel g = some tbl) :
+    (tbl.map (·.1)).Nodup ∧ (∀ k, k ∈ tbl.map (·.1) ↔ k ∈ (usedG g).map (·.1)) ∧
+    (∀ e ∈ tbl, e ∈ usedG g) := by
+  unfold toModel at h
+  have hfrom := table_from h
+  have hhas := table_has h
+  refine ⟨table_nodup h (by simp), ?_, ?_⟩
+  · intro k
+    constructor
+    · intro hk
+      rcases List.mem_map.mp hk with ⟨e, he, rfl⟩
+      rcases hfrom e he with h0 | h1
+      · cases h0
+      · exact List.mem_map.mpr ⟨e, (collectG_mem e g).mp h1, rfl⟩
+    · intro hk
+      rcases List.mem_map.mp hk with ⟨e, he, rfl⟩
+      have := hhas e.1 e.2 ((collectG_mem e g).mpr he)
+      exact List.mem_map.mpr ⟨(e.1, e.2), lookup_isSome_mem this, rfl⟩
+  · intro e he
+    rcases hfrom e he with h0 | h1
+    · cases h0
+    · exact (collectG_mem e g).mp h1
+
+/-- The definition stored under a key is the one of *every* instance used under that key: looking a
+    call's key up in the model gives that call's own body. -/
+theorem definition_is_own_body (g : FGraph) (tbl : List Inst) (h : toModel g = some tbl)
+    (k : Key) (fp : Nat) (hu : (k, fp) ∈ usedG g) : lookup tbl k = some fp :=
+  table_has h k fp ((collectG_mem (k, fp) g).mpr hu)
+
+/-- **Inconsistent bodies are rejected.** Two Function nodes anywhere in the program with the same
+    `(domain, name)` whose rendered definitions differ make the build fail (RuntimeError); they are
+    never silently merged. -/
+theorem inconsistent_rejected (g : FGraph) (k : Key) (f1 f2 : Nat)
+    (h1 : (k, f1) ∈ usedG g) (h2 : (k, f2) ∈ usedG g) (hne : f1 ≠ f2) : toModel g = none := by
+  cases h : toModel g with
+  | none => rfl
+  | some tbl =>
+    have a := definition_is_own_body g tbl h k f1 h1
+    have b := definition_is_own_body g tbl h k f2 h2
+    rw [a] at b
+    exact absurd (Option.some.inj b) hne
+
+/-- …and only those: a program whose same-key instances all agree is not rejected by this rule. -/
+theorem consistent_accepted (g : FGraph)
+    (hc : ∀ k f1 f2, (k, f1) ∈ usedG g → (k, f2) ∈ usedG g → f1 = f2) : (toModel g).isSome := by
+  unfold toModel
+  apply table_accepts
+  intro k f1 f2 h1 h2
+  simp only [List.nil_append] at h1 h2
+  exact hc k f1 f2 ((collectG_mem _ g).mp h1) ((collectG_mem _ g).mp h2)
+
+/-- **Imports cover the body.** Every opset requirement of a function's body is met by the function's
+    opset imports (same domain up to `ai.onnx` = `""`, version at least the required one). -/
+theorem imports_cover_body (bodyReq modelOpsets : List (String × Nat)) (p : String × Nat)
+    (hp : p ∈ bodyReq) :
+    ∃ v', getV (funcImports bodyReq modelOpsets) (norm p.1) = some v' ∧ p.2 ≤ v' :=
+  fold_ge _ [] p (List.mem_append_left _ hp)
+
+/-- …they are never below the model's own imports (one opset per domain across model and functions)… -/
+theorem imports_cover_model (bodyReq modelOpsets : List (String × Nat)) (p : String × Nat)
+    (hp : p ∈ modelOpsets) :
+    ∃ v', getV (funcImports bodyReq modelOpsets) (norm p.1) = some v' ∧ p.2 ≤ v' :=
+  fold_ge _ [] p (List.mem_append_right _ hp)
+
+/-- …and never invented: each imported version is one that the body or the model asked for. -/
+theorem imports_attained (bodyReq modelOpsets : List (String × Nat)) (d : String) (v : Nat)
+    (h : getV (funcImports bodyReq modelOpsets) d = some v) :
+    ∃ p ∈ bodyReq ++ modelOpsets, norm p.1 = d ∧ p.2 = v := by
+  rcases fold_attained _ [] d v h with h0 | h1
+  · simp [getV] at h0
+  · exact h1
+
+/-- **One opset per domain, model and functions alike.** The body requirements of a function are part
+    of the model's requirements (`Function.opset_req` includes its body build's; `compile_graph`
+    merges them). Then, for every domain the model imports, the function imports exactly the model's
+    version. -/
+theorem imports_agree_with_model (bodyReq modelReq : List (String × Nat))
+    (hsub : ∀ p ∈ bodyReq, p ∈ modelReq) (d : String) (m : Nat)
+    (hm : getV (policy modelReq) d = some m) :
+    getV (funcImports bodyReq (policy modelReq)) d = some m := by
+  have hk := policy_kinv modelReq
+  have hmem : (d, m) ∈ policy modelReq := lookup_isSome_mem (κ := String) (β := Nat) hm
+  have hnd : norm d = d := hk.normed d (List.mem_map.mpr ⟨(d, m), hmem, rfl⟩)
+  obtain ⟨v', hv', hle⟩ := imports_cover_model bodyReq (policy modelReq) (d, m) hmem
+  simp only [hnd] at hv'
+  obtain ⟨p, hp, hpd, hpv⟩ := imports_attained bodyReq (policy modelReq) d v' hv'
+  have hge : v' ≤ m := by
+    rcases List.mem_append.mp hp with hb | hM
+    · obtain ⟨w, hw, hpw⟩ := fold_ge modelReq [] p (hsub p hb)
+      rw [hpd] at hw
+      have : w = m := by
+        have h' : getV (policy modelReq) d = some w := hw
+        rw [hm] at h'; exact (Option.some.inj h').symm
+      omega
+    · obtain ⟨d', w⟩ := p
+      simp only at hpd hpv
+      have hd' : norm d' = d' := hk.normed d' (List.mem_map.mpr ⟨(d', w), hM, rfl⟩)
+      have hdd : d' = d := by rw [← hd', hpd]
+      subst hdd
+      have := getV_of_mem hk hM
+      rw [hm] at this
+      have : m = w := Option.some.inj this
+      omega
+  have : v' = m := by omega
+  rw [hv', this]
+
+open FuncSem in
+/-- **A call means its body.** For any operator semantics `S`, any straight-line program with function
+    calls at any number of call sites and any nesting depth: if the build produces a function table
+    (`buildTable` — one definition per key, differs ⇒ error), then evaluating the built model the ONNX
+    way (a call node carries only its key; the definition is looked up in the table and run on the
+    actual arguments) gives exactly what the Python bodies compute. -/
+theorem function_sem {Val : Type} (S : Nat → List Val → Val) (dflt : Val) (prog : List SNode)
+    (tbl : List (Nat × ODef)) (h : buildTable prog = some tbl) (fuel : Nat) (hf : depthNs prog ≤ fuel)
+    (env : List Val) :
+    evalO S dflt tbl fuel (eraseNs prog) env = some (evalNodes S dflt prog env) :=
+  sem_nodes S dflt tbl prog fuel env (buildTable_covered h) hf
+
+open FuncSem in
+/-- the same rule at the level of bodies: two reachable instances with one key and different erased
+    bodies ⇒ no table (the build raises) -/
+theorem function_sem_rejects (prog : List SNode) (k : Nat) (d1 d2 : ODef)
+    (h1 : (k, d1) ∈ defsNs prog) (h2 : (k, d2) ∈ defsNs prog) (hne : d1 ≠ d2) : buildTable prog = none := by
+  cases h : buildTable prog with
+  | none => rfl
+  | some tbl =>
+    have a := Func.table_has h k d1 h1
+    have b := Func.table_has h k d2 h2
+    rw [a] at b
+    exact absurd (Option.some.inj b) hne
+
+/-! ### non-vacuity -/
+-- f used only inside an If body, g only inside f: both defined, once
+example : toModel (.mk [.ctrl [.mk [.call ("dom", "f") 1 (.mk [.op, .call ("dom", "g") 2 (.mk [.op])])]],
+                        .call ("dom", "g") 2 (.mk [.op])])
+    = some [(("dom", "g"), 2), (("dom", "f"), 1)] := by decide
+-- a body that differs between two calls is rejected
+example : toModel (.mk [.call ("dom", "f") 1 (.mk [.op]), .ctrl [.mk [.call ("dom", "f") 7 (.mk [.op, .op])]]])
+    = none := by decide
+example : getV (funcImports [("", 19), ("ai.onnx", 17)] [("", 18), ("dom", 0)]) "" = some 19 := by decide
+open FuncSem in
+example : evalO (fun l xs => l + xs.sum) 0 [(5, ⟨[.op 1 [0, 0]], 1⟩)] 1 [.call 5 [0], .call 5 [1]] [10]
+    = some [10, 21, 43] := by simp [evalO, Func.lookup]
+
+end C14
